@@ -150,6 +150,23 @@ def s1_ops_skeleton(which: str):
                       'dispatch loop shape changed')
         if n == 0:
             raise ShapeError('no engine-dispatched ops found')
+        # every operation the engines define is asked of them: an ops function that answers by composing other rounded
+        # operations (`sub = add(x, neg(y, ctx), ctx)`) rounds an intermediate result, i.e. more than once
+        eng = repo.cls(ENGINE, 'Engine')
+        dispatched = {OPS_ALIAS.get(name, name) for name, _ in engine_ops(repo)}
+        rounded_ops = {name for name, _ in engine_ops(repo)}
+        for st in eng.body:
+            if not (isinstance(st, ast.FunctionDef) and repo.is_abstract(st) and in_scope(st.name, which)):
+                continue
+            back = {v: k for k, v in OPS_ALIAS.items()}
+            oname = back.get(st.name, st.name)
+            if not repo.has_func(OPS, oname):
+                continue            # not offered as an operation (engine-internal)
+            f = repo.func(OPS, oname)
+            inner = sorted({call_name(c) for c in calls_in(f) if call_name(c) in rounded_ops and any(dotted(a) == 'ctx' for a in list(c.args) + [k.value for k in c.keywords])})
+            ctx.check(st.name in dispatched, OPS, f, oname, f'ops.{oname} asks the engines for `{st.name}`',
+                      f'ops.{oname} no longer dispatches over ENGINES' + (f'; it is composed of {inner} under `ctx`, so an intermediate result is rounded before the final one '
+                                                                             f'(sub(1, 17/16, 3 digits) gives +0, not -1/16)' if inner else ''))
     return rule
 
 
